@@ -66,7 +66,9 @@ def r1(ctx):
         if b.npath == A + 'steer_clocks':
             # local `filter`: starts as progress_time(clone(self.filter)) and is only ever replaced by the success payload of an op on itself
             parts = alts(v)
-            ok = all(re.match(SUCC, p) or re.match(r'^\(Result::branch\(LinkFilter::absorb_\w+\(filter, .* as Continue\)\.0$', p) for p in parts) and any(re.match(SUCC, p) for p in parts)
+            lab = re.match(r'^(\w+)\{', v)
+            lab = re.escape(lab.group(1)) if lab else r'\w+'
+            ok = all(re.match(SUCC, p) or re.match(r'^\(Result::branch\(LinkFilter::absorb_\w+\(%s, .* as Continue\)\.0$' % lab, p) for p in parts) and any(re.match(SUCC, p) for p in parts)
             ctx.check(key + '|clone-then-replace', ok, 'steer_clocks stores %s' % [p[:80] for p in parts], s.where(), sample=len(parts))
             continue
         ok = re.match(SUCC, v) is not None
@@ -146,7 +148,7 @@ def r3(ctx):
                 all(re.search(r' as Continue\)\.0\.%s$' % fld, a[1]) and a[2] == 'SIZE=%d' % sz for a in args) and args[0][1:] == args[1][1:]
             ctx.check('%s::remove|update-both-lists' % lst, ok, 'update_indices calls %s' % [[x[-40:] for x in a] for a in args], sample=len(args))
             for u in ui:
-                ctx.guard(b, u, 'removed', fact_is(r'^Result::branch\(\{Result::Err\{0: AlgoError::Unknown\w+\{0: id\}\} \| Result::Ok\{0: \w+::remove\(self\.0, pos\)\}\}\)$', 'Continue', names=True),
+                ctx.guard(b, u, 'removed', fact_is(r'^Result::branch\(\{Result::Err\{0: AlgoError::Unknown\w+\{0: id\}\} \| Result::Ok\{0: \w+::remove\(self\.0, \(Iter::position\(.*\) as Some\)\.0\)\}\}\)$', 'Continue'),
                           key='%s::remove|%s|after-removal' % (lst, short_name(b.callee(u)['def'])))
     for lst, fld in (('ClockInfoList', 'base_index'), ('LinkInfoList', 'index')):
         b = P.body(E + lst + '::update_indices')
@@ -155,7 +157,7 @@ def r3(ctx):
         for s, t, v in dw:
             ok = t.endswith('.' + fld) and re.match(r'^\(%s - delta\)$' % re.escape(t), v) is not None
             ctx.check('%s::update_indices|subtract-delta' % lst, ok, 'writes %s = %s' % (t[-30:], v[-60:]), s.where(), sample=v[-40:])
-            ctx.guard(b, s, 'greater', fact_cmp('Gt', r'^info\.%s$' % fld, r'^from$', names=True), key='%s::update_indices|only-greater' % lst)
+            ctx.guard(b, s, 'greater', fact_cmp('Gt', r'^\(IterMut::next\(.*\) as Some\)\.0\.%s$' % fld, r'^from$'), key='%s::update_indices|only-greater' % lst)
     ES = E + 'EstimatorState::'
     # add ops
     for op, lst, info, cross in (('add_clock', 'ClockInfoList', 'ClockInfo', r'^ExternalClockList::contains\(self\.external_clocks, id\)$'), ('add_link', 'LinkInfoList', 'LinkInfo', None)):
